@@ -66,6 +66,7 @@ std::vector<Eigen::Affine3d> transforms() {
   for (double a : {0.4, -2.0, M_PI}) Rs.push_back(Eigen::AngleAxisd(a, Eigen::Vector3d::UnitZ()).toRotationMatrix());
   Rs.push_back(Eigen::AngleAxisd(0.5, Eigen::Vector3d::UnitX()).toRotationMatrix());
   Rs.push_back(Eigen::AngleAxisd(M_PI / 2 - 0.3 - 3e-3, Eigen::Vector3d::UnitY()).toRotationMatrix());
+  for (double delta : {2e-5, 1e-4, 3e-4, 4.4e-4}) Rs.push_back(Eigen::AngleAxisd(M_PI / 2 - 0.3 - delta, Eigen::Vector3d::UnitY()).toRotationMatrix());   // with a pose of pitch 0.3 and yaw 0 the composed attitude lies 2e-5 .. 4.4e-4 rad from gimbal lock
   Rs.push_back(Eigen::AngleAxisd(-1.1, Eigen::Vector3d(1, 1, 0).normalized()).toRotationMatrix());
   Rs.push_back(Eigen::AngleAxisd(2.7, Eigen::Vector3d(-2, 1, 3).normalized()).toRotationMatrix());
   Rs.push_back((Eigen::AngleAxisd(1.1, Eigen::Vector3d::UnitX()) * Eigen::AngleAxisd(-0.7, Eigen::Vector3d::UnitY())).toRotationMatrix());
@@ -119,7 +120,8 @@ void reductions(vf::Ctx& c) {
   }
 }
 
-bool far_from_lock(const L3& R) { return fabsl(R(2, 0)) <= cosl(1e-3L); }
+bool far_from_lock(const L3& R) { return fabsl(R(2, 0)) <= cosl(1e-3L); }   // the pose of the quantifier: 1e-3 rad from gimbal lock
+bool result_defined(const L3& R) { return fabsl(R(2, 0)) <= cosl(1e-5L); }   // the transformed attitude is compared as a rotation: only the immediate vicinity of the lock (1e-5 rad) is left out
 
 void group_action(vf::Ctx& c, size_t it) {
   auto Ts = transforms(); auto atts = attitudes(); auto poss = positions(); auto covs = cov_catalogue();
@@ -131,7 +133,7 @@ void group_action(vf::Ctx& c, size_t it) {
     if (!far_from_lock(Rp)) { c.trivial(); continue; }
     std::string params = vf::JO().u("transform", it).vec("pose_rpy", std::vector<double>{atts[ia][0], atts[ia][1], atts[ia][2]}).vec("pose_xyz", std::vector<double>{poss[ip][0], poss[ip][1], poss[ip][2]}).done();
     L3 want = R1 * Rp;
-    if (!far_from_lock(want)) { c.trivial(); continue; }
+    if (!result_defined(want)) { c.trivial(); continue; }
     c.eval();
     long double cp = sqrtl(1 - want(2, 0) * want(2, 0));
     if (cp < 0.02L) c.nontrivial(); else if (it >= 3) c.nontrivial();
@@ -152,7 +154,7 @@ void group_action(vf::Ctx& c, size_t it) {
     for (size_t j = 0; j < Ts.size(); j += 4) {
       const Eigen::Affine3d& T2 = Ts[j];
       L3 w2 = T2.linear().cast<long double>() * want;
-      if (!far_from_lock(w2)) { c.trivial(); continue; }
+      if (!result_defined(w2)) { c.trivial(); continue; }
       c.eval(); c.nontrivial();
       Pose3D a = (T2 * T1) * p, b = T2 * r;
       long double cp2 = sqrtl(1 - w2(2, 0) * w2(2, 0));
@@ -215,7 +217,7 @@ std::string vf_describe(const std::string& tier) {
   if (g_x) o.str("thorough_extension", "attitudes: + 13 rolls, 25 pitches (step 0.125), 13 yaws; + 12 generic axes x 4 angles; ellipse axis every 0.25 deg");
   o.u("covariances", cov_catalogue().size()).u("attitudes", attitudes().size()).u("positions", positions().size()).u("transforms", transforms().size());
   o.str("covariance_catalogue", "Q diag(d) Q^T, d from 7 patterns over {0,1e-8,1e-4,1,..,1e4} (rank-deficient included), Q identity or a product of 15 Givens rotations (3 variants)");
-  o.str("attitudes", "roll {0,0.7,-2.5,3} x pitch {0,0.3,-1.2,pi/2-1.5e-3,pi/2-2e-3,-(pi/2-4e-3),pi/2-0.01} x yaw {0,0.4,-3,5.5}; cases within 1e-3 rad of gimbal lock before or after the transform are skipped (trivial)");
+  o.str("attitudes", "roll {0,0.7,-2.5,3} x pitch {0,0.3,-1.2,pi/2-1.5e-3,pi/2-2e-3,-(pi/2-4e-3),pi/2-0.01} x yaw {0,0.4,-3,5.5}; poses within 1e-3 rad of gimbal lock are outside the quantifier; transformed attitudes are compared as rotations down to 1e-5 rad from the lock");
   o.str("transforms", "rotations: identity, yaw 0.4/-2/pi, roll 0.5, pitch pi/2-0.3-3e-3, three general axes x translations {0,(0.3,-1.2,2),(1e3,-1e3,10)}; compositions with every 4th transform");
   o.str("ellipses", tier == "thorough" ? "9 eigenvalue pairs (rank-1, rank-0, kappa up to 1e8) x axis 0..179.75 deg step 0.25 and axes {1e-15..1e-4} rad away from the coordinate axes x sigma {0.1,1,3,10} x {Position2D,Pose2D}" : "9 eigenvalue pairs (rank-1, rank-0, kappa up to 1e8) x axis 0..179 deg step 1 and axes {1e-15..1e-4} rad away from the coordinate axes x sigma {0.1,1,3,10} x {Position2D,Pose2D}");
   o.str("tolerances", "attitude as rotation: min(1e-9, 2e-14+2e-15/cos(pitch)); ellipse reconstruction 1e-12 relative to the major eigenvalue; reductions exact");
